@@ -202,8 +202,13 @@ def check_raw_text(ctx, s, explicit=None):
         ctx.viol(f"text/raises/{type(exc).__name__}", f"Quantity({s!r}{', ' + explicit if explicit else ''}) raised "
                  f"{type(exc).__name__}: {exc}; malformed text must raise QuantityError")
         return "crash"
-    parts_ = s.lstrip().split(" ", 1)
-    val = ref_parse_number(parts_[0])
+    # independent reading: number token up to the first white space, the rest is the symbol.  Which white space
+    # separates (HEAD: blanks only) is the parser's business; an accepted text must have this reading.
+    # (HEAD splits at the first blank and leaves the token to Fraction(), which tolerates '1/\r7'.)
+    for parts_ in (s.lstrip().split(" ", 1), s.lstrip().split(None, 1) or [""]):
+        val = ref_parse_number(parts_[0])
+        if val is not None:
+            break
     if val == "skip":
         return "accepted"
     sym = parts_[1].strip() if len(parts_) > 1 else None
